@@ -43,6 +43,8 @@ def gen_hist_case(rng, algs=("DE", "NSDE", "GDE3", "GDE3MNN", "GDE32NN", "GDE3P"
     single = alg == "DE"
     n_var = rng.choice([1, 2, 3, 4]); n_obj = 1 if single else (3 if alg == "NSDER" else rng.choice([2, 2, 3]))
     if alg == "GDE3P": n_obj = 2
+    if alg in ("GDE3", "NSDE", "GDE3MNN", "GDE32NN") and rng.random() < 0.12:
+        n_obj = 1          # the multi-objective algorithms on a single-objective problem (plateaus of the rounded objective give exact ties)
     n_ieq = rng.choice([0, 0, 1, 2])
     shift = rng.choice([-5.0, 0.0, 0.5, 3.0]) if n_ieq else 0.0
     sel = rng.choice(SELS); y = rng.choice([1, 1, 2]); cx = rng.choice(["bin", "exp"])
@@ -56,7 +58,7 @@ def gen_hist_case(rng, algs=("DE", "NSDE", "GDE3", "GDE3MNN", "GDE32NN", "GDE3P"
            "B": [[rng.gauss(0, 1) for _ in range(n_var)] for _ in range(max(n_ieq, 1))],
            "digits": rng.choice([1, 2, 2, 6]),
            "sel": sel, "y": y, "cx": cx, "CR": float(rng.choice([0.0, 0.1, 0.5, 0.9, 1.0])).hex(),
-           "F": rng.choice([0.5, 2.0, (0.0, 1.0), (0.5, 2.5)] + ([] if single else [None])), "gamma": rng.choice([None, 1e-4, 0.5, 1.9]),
+           "F": rng.choice([0.5, 2.0, (0.0, 1.0), (0.5, 2.5)] + ([] if single else [None])), "gamma": rng.choice([None, 1e-4, 0.5, 1.9, 0.0]),
            "repair": rng.choice(["bounce-back", "midway", "rand-init", "to-bounds"]),
            "surv": rng.choice(["RankAndCrowding", "ConstrRankAndCrowding"]), "cf": rng.choice(["cd", "ce", "mnn", "2nn", "pcd"]),
            "pop_size": ps, "n_gen": n_gen, "seed": rng.randrange(10 ** 6)}
